@@ -42,10 +42,13 @@ theorem engUnary_unsafe (st : St) (g : UnF) (tc kt : List String) (strict : Bool
   exact ⟨_, h, rfl, w.sem1 hA.has⟩
 
 /-- `WithReuse(r)`: `r[i] = g a[i]` (copy, then in place); `r` is returned; nothing outside the window
-    of `r` changes — in particular `a` is unchanged when it does not overlap `r`'s window. -/
+    of `r` changes — in particular `a` is unchanged when it does not overlap `r`'s window. (`hal`: the destination does
+    not share memory with the operand, or it addresses exactly the operand's cells in the operand's sequence - `r = a`
+    included; a destination that overlaps the operand in another way makes `prepDataUnary` read the operand from a copy:
+    `engUnary_reuse_alias_witness`.) -/
 theorem engUnary_reuse (st : St) (g : UnF) (tc kt : List String) (strict : Bool) (a r : Dense)
     (htc : a.dt ∈ tc) (hk : a.dt ∈ kt) (hia : a.requiresIterator = false) (hir : r.requiresIterator = false)
-    (hr : ReuseFits r a.shape a.dt a.ap.o.col) (hlen : r.win.len = a.win.len)
+    (hr : ReuseFits r a.shape a.dt a.ap.o.col) (hlen : r.win.len = a.win.len) (hal : sharesMemory a r = false ∨ sameAccess a r = true)
     (hA : InBuf st a.win.buf a.win.off a.win.len) (hR : InBuf st r.win.buf r.win.off r.win.len) :
     ∃ out, engUnary st g tc kt strict a { reuse := some r } = .ok out ∧ out.ret = .reuse ∧
       out.reuse = some r ∧ out.st.mheap = st.mheap ∧
@@ -53,7 +56,7 @@ theorem engUnary_reuse (st : St) (g : UnF) (tc kt : List String) (strict : Bool)
         cell out.st r.win.buf (r.win.off + i) = some (g x)) ∧
       (∀ b' k, (b' ≠ r.win.buf ∨ k < r.win.off ∨ r.win.off + r.win.len ≤ k) → cell out.st b' k = cell st b' k) := by
   obtain ⟨st', h, w⟩ := engUnary_reuse' st g tc kt strict a r (by simpa using htc) (by simpa using hk) hia hir hr
-    hlen hA hR
+    hlen hal hA hR
   exact ⟨_, h, rfl, rfl, w.sem1 (by rw [hlen]; exact hA.has)⟩
 
 /-- Refusal by type class (`unaryCheck`): an error value, whatever the options; no state. -/
@@ -115,14 +118,14 @@ theorem engMap_safe (st : St) (g : UnF) (mt : List String) (a : Dense)
 theorem engMap_reuse (st : St) (g : UnF) (mt : List String) (a r : Dense)
     (hmt : a.dt ∈ mt) (hia : a.requiresIterator = false) (hir : r.requiresIterator = false)
     (hr : ReuseFits r a.shape a.dt a.ap.o.col) (hts : totalSize r.shape = totalSize a.shape)
-    (hlen : r.win.len = a.win.len)
+    (hlen : r.win.len = a.win.len) (hal : sharesMemory a r = false ∨ sameAccess a r = true)
     (hA : InBuf st a.win.buf a.win.off a.win.len) (hR : InBuf st r.win.buf r.win.off r.win.len) :
     ∃ out r', engMap st g mt a { reuse := some r } = .ok out ∧ out.ret = .reuse ∧ out.reuse = some r' ∧
       r'.win = r.win ∧ out.st.mheap = st.mheap ∧
       (∀ i, i < r.win.len → ∃ x, cell st a.win.buf (a.win.off + i) = some x ∧
         cell out.st r.win.buf (r.win.off + i) = some (g x)) ∧
       (∀ b' k, (b' ≠ r.win.buf ∨ k < r.win.off ∨ r.win.off + r.win.len ≤ k) → cell out.st b' k = cell st b' k) := by
-  obtain ⟨st', r', h, hw, w⟩ := engMap_reuse' st g mt a r (by simpa using hmt) hia hir hr hts hlen hA hR
+  obtain ⟨st', r', h, hw, w⟩ := engMap_reuse' st g mt a r (by simpa using hmt) hia hir hr hts hlen hal hA hR
   exact ⟨_, r', h, rfl, rfl, hw, w.sem1 (by rw [hlen]; exact hA.has)⟩
 
 /-- **`Apply(fn, WithIncr(r))`** (finding F34, repaired): `r[i]` becomes `r[i] + g a[i]` — the function is applied to a
@@ -131,7 +134,7 @@ theorem engMap_reuse (st : St) (g : UnF) (mt : List String) (a r : Dense)
 theorem engMap_incr (st : St) (g : UnF) (mt : List String) (a r : Dense)
     (hmt : a.dt ∈ mt) (hnb : a.dt ≠ "b") (hia : a.requiresIterator = false) (hir : r.requiresIterator = false)
     (hr : ReuseFits r a.shape a.dt a.ap.o.col) (hts : totalSize r.shape = totalSize a.shape)
-    (hlen : r.win.len = a.win.len) (hm : a.mask = none)
+    (hlen : r.win.len = a.win.len) (hm : a.mask = none) (hal : sharesMemory a r = false ∨ sameAccess a r = true)
     (hA : InBuf st a.win.buf a.win.off a.win.len) (hR : InBuf st r.win.buf r.win.off r.win.len) :
     ∃ out r', engMap st g mt a { incr := some r } = .ok out ∧ out.ret = .reuse ∧ out.reuse = some r' ∧
       r'.win = r.win ∧ out.st.mheap = st.mheap ∧
@@ -141,7 +144,7 @@ theorem engMap_incr (st : St) (g : UnF) (mt : List String) (a r : Dense)
       (∀ b' k, b' < st.heap.size → (b' ≠ r.win.buf ∨ k < r.win.off ∨ r.win.off + r.win.len ≤ k) →
         cell out.st b' k = cell st b' k) := by
   obtain ⟨st', r', h, hw, hm', hv, hfr⟩ := engMap_incr' st g mt a r (by simpa using hmt) (by simpa using hnb) hia hir hr
-    hts hlen hm hA hR
+    hts hlen hm hal hA hR
   refine ⟨_, r', h, rfl, rfl, hw, hm', ?_, hfr⟩
   intro i hi
   exact ⟨_, _, cell_some_cellD (hA.has i (by omega)), cell_some_cellD (hR.has i hi), hv i hi⟩
@@ -150,6 +153,7 @@ theorem engMap_incr (st : St) (g : UnF) (mt : List String) (a r : Dense)
 theorem engMap_incr_bool_refused (st : St) (g : UnF) (mt : List String) (a r : Dense)
     (hmt : a.dt ∈ mt) (hb : a.dt = "b") (hia : a.requiresIterator = false) (hir : r.requiresIterator = false)
     (hr : ReuseFits r a.shape a.dt a.ap.o.col) (hts : totalSize r.shape = totalSize a.shape) (hm : a.mask = none)
+    (hal : sharesMemory a r = false ∨ sameAccess a r = true)
     (hA : InBuf st a.win.buf a.win.off a.win.len) :
     ∃ e, engMap st g mt a { incr := some r } = .error (.err e) := by
   have hts' : (totalSize a.shape != totalSize r.shape) = false := by simp [hts]
@@ -161,7 +165,7 @@ theorem engMap_incr_bool_refused (st : St) (g : UnF) (mt : List String) (a r : D
   have hbb : (a.dt == "b") = true := by simp [hb]
   refine ⟨"Unsupported type for Add", ?_⟩
   unfold engMap mapKern
-  simp only [hfo_incr _ _ _ _ _ _ hr, hts', hia, hir, hr.sameOrd, show mt.contains a.dt = true by simpa using hmt, h1, h2, hbb,
+  simp only [hfo_incr _ _ _ _ _ _ hr, prepAliasT_keep _ _ _ hal, hts', hia, hir, hr.sameOrd, show mt.contains a.dt = true by simpa using hmt, h1, h2, hbb,
     bind, Except.bind, pure, Except.pure, throwErr,
     Bool.not_true, Bool.false_eq_true, if_false, Bool.or_false, Bool.not_false, if_true]
 
@@ -230,6 +234,25 @@ theorem engMap_incr_witness :
       cell out.st 1 0 = some (.app2 "add" (.src 1 0) (.app1 "g" (.src 0 0))) ∧ cell out.st 0 0 = some (.src 0 0) :=
   ⟨_, rfl, rfl, rfl⟩
 
+namespace AW
+def st : St := { heap := #[#[.src 0 0, .src 0 1, .src 0 2, .src 0 3, .src 0 4, .src 0 5, .src 0 6, .src 0 7, .src 0 8]] }
+def a : Dense := { ap := { shape := [3, 3], strides := [3, 1] }, win := ⟨0, 0, 9, 9⟩, dt := "f64" }
+/-- the shallow clone of `a` with a pending transpose -/
+def r : Dense := { ap := { shape := [3, 3], strides := [1, 3], o := { nonContig := true, transposed := true } },
+                   old := some { shape := [3, 3], strides := [3, 1] }, tw := some [1, 0], win := ⟨0, 0, 9, 9⟩, dt := "f64" }
+end AW
+
+/-- **The destination is a transposed alias of the operand** (`r := a.ShallowClone(); r.T()` on a square matrix: the same
+    storage window and shape, other strides - the witness `new f64 3,3 C ; shallow $0 ; T $1 - ; un neg $0 reuse=$1` of
+    the repaired defect): `prepDataUnary` reads the operand from a copy, so `r` receives `g` of the operand's element at
+    every *coordinate*: `r`'s coordinate (0,1) is cell 3 of the shared window and holds `g a[0,1] = g` of the former cell
+    1; before the repair the copy into `r` read cells it had already overwritten. -/
+theorem engUnary_reuse_alias_witness :
+    ∃ out, engUnary AW.st (fun x => .app1 "g" x) floatTypes floatTypes true AW.a { reuse := some AW.r } = .ok out ∧
+      cell out.st 0 3 = some (.app1 "g" (.src 0 1)) ∧ cell out.st 0 1 = some (.app1 "g" (.src 0 3)) ∧
+      cell out.st 0 0 = some (.app1 "g" (.src 0 0)) ∧ cell out.st 0 5 = some (.app1 "g" (.src 0 7)) :=
+  ⟨_, rfl, rfl, rfl, rfl, rfl⟩
+
 /-! ## non-vacuity -/
 namespace Ex
 def st : St := { heap := #[#[.src 0 0, .src 0 1, .src 0 2, .src 0 3], #[.src 1 0, .src 1 1, .src 1 2, .src 1 3]] }
@@ -243,15 +266,15 @@ theorem fits : ReuseFits tr ta.shape ta.dt ta.ap.o.col := ⟨rfl, by decide, by 
 example := engUnary_safe st g floatTypes floatTypes true ta (by decide) (by decide) (by decide) rfl inA
 example := engUnary_unsafe st g floatTypes floatTypes true ta (by decide) (by decide) (by decide) inA
 example := engUnary_reuse st g floatTypes floatTypes true ta tr (by decide) (by decide) (by decide) (by decide)
-  fits rfl inA inR
+  fits rfl (by decide) inA inR
 example := engUnary_refuses st g floatTypes floatTypes true { ta with dt := "i" } {} (by decide)
 example := kUnIter_sem st ⟨0, 0, 4, 4⟩ g [(0, true), (2, false), (1, true)] (by unfold InRange; decide) (by decide) inA
 example := engMap_safe st g ["f64"] ta (by decide) (by decide) (by decide) rfl inA
-example := engMap_reuse st g ["f64"] ta tr (by decide) (by decide) (by decide) fits rfl rfl inA inR
+example := engMap_reuse st g ["f64"] ta tr (by decide) (by decide) (by decide) fits rfl rfl (by decide) inA inR
 /-- the destination may be the operand itself -/
 example := engMap_reuse st g ["f64"] ta ta (by decide) (by decide) (by decide)
-  ⟨rfl, by decide, by decide, rfl⟩ rfl rfl inA inA
-example := engMap_incr st g ["f64"] ta tr (by decide) (by decide) (by decide) (by decide) fits rfl rfl rfl inA inR
+  ⟨rfl, by decide, by decide, rfl⟩ rfl rfl (by decide) inA inA
+example := engMap_incr st g ["f64"] ta tr (by decide) (by decide) (by decide) (by decide) fits rfl rfl rfl (by decide) inA inR
 -- iterator path: a (1,3) view with a gap after every element (offsets 0, 2, 4 of a 5-cell window)
 def st6 : St := { heap := #[#[.src 0 0, .src 0 1, .src 0 2, .src 0 3, .src 0 4, .src 0 5]] }
 def tv : Dense := { ap := { shape := [1, 3], strides := [6, 2], o := { nonContig := true } }, win := ⟨0, 0, 5, 6⟩,
@@ -266,7 +289,7 @@ example : ∃ out, engUnary st6 g floatTypes floatTypes true tv { unsafe_ := tru
     cell out.st 0 0 = some (.app1 "g" (.src 0 0)) ∧ cell out.st 0 1 = some (.src 0 1) ∧
     cell out.st 0 2 = some (.app1 "g" (.src 0 2)) ∧ cell out.st 0 5 = some (.src 0 5) := ⟨_, rfl, rfl, rfl, rfl, rfl⟩
 example := engMap_incr_bool_refused st g ["b"] { ta with dt := "b" } { tr with dt := "b" } (by decide) rfl (by decide)
-  (by decide) ⟨rfl, by decide, by decide, rfl⟩ rfl rfl inA
+  (by decide) ⟨rfl, by decide, by decide, rfl⟩ rfl rfl (by decide) inA
 end Ex
 
 end TM.C12
